@@ -14,6 +14,7 @@ import re
 import shutil
 import subprocess
 import sys
+import tempfile
 import time
 
 VERIF = os.path.dirname(os.path.dirname(os.path.abspath(__file__)))
@@ -68,6 +69,9 @@ class Ctx:
         self.work = os.path.join(VERIF, ".work", "%s.%d" % (pid, os.getpid()))
         shutil.rmtree(self.work, ignore_errors=True)
         os.makedirs(self.work)
+        # scratch base of the C drivers: removed afterwards even when a driver crashed mid-case
+        self.scratch = tempfile.mkdtemp(prefix="zv.", dir="/tmp")
+        os.environ["VERIF_SCRATCH"] = self.scratch
         self.violations = []       # list of dicts (already printed)
         self.known_hits = {}       # finding id -> count of generated cases in its class
         self.notes = []
@@ -85,6 +89,7 @@ class Ctx:
         return os.path.join(self.work, name)
 
     def cleanup(self):
+        shutil.rmtree(self.scratch, ignore_errors=True)
         if not os.environ.get("VERIF_KEEP"):
             shutil.rmtree(self.work, ignore_errors=True)
 
